@@ -489,6 +489,9 @@ func (w *World) resolveStep(st *Step) ([]sdk.Msg, []byte) {
 	for _, m := range msgs {
 		applyMutations(m, st)
 	}
+	if st.N["upper"] == 1 {
+		upperCreator(msgs[0]) // bech32 is case-insensitive: the all-upper-case spelling names the same account
+	}
 	if k := st.N["subst"]; k > 0 {
 		if sa := w.acct(st.N["subst_acct"]); sa != nil {
 			substAddressField(msgs[0], int(k), sa.Bech)
